@@ -19,7 +19,8 @@ SnapC(r, n)  == [k \in 1 .. n |-> IF (k - 1) \in DOMAIN r THEN r[k - 1].cum ELSE
 
 Rec == LET i == out'.id IN
   (IF out'.res = "restart"
-     THEN [op |-> "restart", res |-> "restart", dev |-> "", fault |-> "none"]
+     THEN [op |-> "restart", res |-> "restart", dev |-> "",
+           fault |-> IF DOMAIN rows = {} THEN "kill@genesis" ELSE "none"]   \* the restart after a killed FIRST start
      ELSE [op |-> "add", id |-> i, parent |-> decl'[i], work |-> hdr'[i].w, root |-> hdr'[i].root, forb |-> FALSE,
            res |-> out'.res, fault |-> out'.fault,
            dev |-> IF out'.res = "L" /\ hdr'[i].w = 0 /\ "ZeroWorkTipExtension" \in Deviations THEN "ZeroWorkTipExtension" ELSE ""])
